@@ -32,6 +32,18 @@ def tok(key, k):
     return Tok("%s#%d" % (key, k))
 
 
+def _argstr(a):
+    if isinstance(a, Tok):
+        return a.s
+    if a is None or isinstance(a, (str, int)):
+        return repr(a)
+    return type(a).__name__
+
+
+def fn_tok(key, args):
+    return Tok("%s(%s)" % (key, ",".join(_argstr(a) for a in args)))
+
+
 def enc(v):
     """python value -> canonical JSON value"""
     if v is None:
@@ -82,6 +94,8 @@ class Rec:
         RECORD.setdefault(self.key, []).append((list(args), dict(kwargs)))
         if self.kind == "ret":
             return tok(self.key, 0)
+        if self.kind == "fn":          # the value names the callable and everything it was called with, in order
+            return fn_tok(self.key, args)
         if self.kind == "gen":
             return _gen(self.key, self.m)
         if self.kind == "list":
@@ -94,9 +108,11 @@ class Rec:
         return "Rec(%s)" % self.key
 
 
-def result_json(key, beh):
+def result_json(key, beh, vals=None):
     """What the callable of behaviour `beh` returns, for the model."""
     kind, m = beh["kind"], beh.get("m", 0)
+    if vals is not None:
+        return {"kind": "value", "vals": [enc(vals[0])]}
     if kind == "ret":
         return {"kind": "value", "vals": [enc(tok(key, 0))]}
     if kind == "gen":
@@ -256,6 +272,7 @@ def build(case):
                                "parents": [x[0] for x in ph.values()]}
     elif kind == "fluent":
         from earthkit.workflows import fluent
+        payload_objs, keys_of = [], []
         for nd in case["nodes"]:
             beh = nd["beh"]
             f = Rec(nd["name"], beh["kind"], beh.get("m", 0))
@@ -263,14 +280,22 @@ def build(case):
             kwargs = {k: dec(v) for k, v in nd["kwargs"]}
             ins = [nodes[pi] if o is None else nodes[pi].get_output(o) for pi, o in nd["inputs"]]
             arg_ins = ins[0] if (nd.get("single") and len(ins) == 1) else ins
-            node = fluent.Node(fluent.Payload(f, list(args), dict(kwargs)), arg_ins, num_outputs=nd["num_outputs"], name=nd["name"])
+            if nd.get("reuse") is not None:
+                # the very Payload object an earlier node was built from (the case repeats its args/kwargs/beh):
+                # what the constructor did for that node must not show here
+                pobj = payload_objs[nd["reuse"]]
+            else:
+                pobj = fluent.Payload(f, list(args), dict(kwargs))
+            payload_objs.append(pobj)
+            keys_of.append(keys_of[nd["reuse"]] if nd.get("reuse") is not None else nd["name"])
+            node = fluent.Node(pobj, arg_ins, num_outputs=nd["num_outputs"], name=nd["name"])
             nodes.append(node)
             # fluent semantics from its documentation/comment: "Insert inputs not already present in args"
             declared = list(args) + ["input%d" % i for i in range(len(ins)) if "input%d" % i not in args]
             ph = {"input%d" % i: (nodes[pi].name, "0" if o is None else o) for i, (pi, o) in enumerate(nd["inputs"])}
             spec[node.name] = {"args": [("up",) + ph[a] if isinstance(a, str) and a in ph else ("static", a) for a in declared],
                                "kwargs": {k: ("static", v) for k, v in kwargs.items()},
-                               "outs": [str(i) for i in range(nd["num_outputs"])], "beh": beh, "key": nd["name"], "wellformed": True,
+                               "outs": [str(i) for i in range(nd["num_outputs"])], "beh": beh, "key": keys_of[-1], "wellformed": True,
                                "parents": [x[0] for x in ph.values()]}
             res["fluent_nodes"].append({"name": node.name, "args": [enc(a) for a in args], "n_inputs": len(ins), "num_outputs": nd["num_outputs"]})
     elif kind == "prog":
@@ -301,6 +326,13 @@ def build(case):
                                    "key": node.payload[0].key, "wellformed": True, "parents": [gnames[i]]}
                 res["coords"].append([i, coords[j], node.name])
         res["graph"] = act2.graph()
+    elif kind == "fprog":
+        try:
+            _build_fprog(case, res)
+        except Exception as e:      # the generator only writes programs the fluent documentation allows
+            res["lower_error"] = "program:" + type(e).__name__
+            res["spec"].clear()
+            return res
     if kind in ("hand", "fluent"):
         consumed = set()
         for nd in nodes:
@@ -318,11 +350,99 @@ def build(case):
     except Exception as e:   # unexpected: a result to compare, not a crash
         res["lower_error"] = "other:" + type(e).__name__
     # topological order = declaration order for hand/fluent; sources first for prog
-    if kind == "prog":
+    if kind == "fprog":
+        pass
+    elif kind == "prog":
         res["order"] = [n for n in spec if spec[n]["beh"]["kind"] == "gen"] + [n for n in spec if spec[n]["beh"]["kind"] != "gen"]
     else:
         res["order"] = [nd.name for nd in nodes]
     return res
+
+
+def _build_fprog(case, res):
+    """A fluent program over an array of sources: map / reduce (optionally batched) steps that share Payload objects.
+
+    case: dims [n] | [n1, n2]; payloads [{"wrap": "payload"|"callable"|"partial", "args": [...], "kwargs": [...]}];
+          steps [{"op": "map", "p": i} | {"op": "reduce", "p": i, "dim": "x"|"y", "batch": b}]
+    What is DECLARED for a node of the resulting graph: the inputs the node has in the graph, and the arguments the
+    author wrote into the payload it was built from, completed by the inputs the author did not place ("Insert inputs
+    not already present in args").  An 'inputK' string with K >= number of inputs is a string the author wrote.
+    """
+    import functools
+    import graphlib
+
+    import numpy as np
+    from earthkit.workflows import fluent
+    from earthkit.workflows.graph import serialise
+    spec = res["spec"]
+    dims = list(case["dims"])
+    dnames = ["x", "y"][:len(dims)]
+    srcs = np.empty(tuple(dims), dtype=object)
+    for idx in np.ndindex(*dims):
+        srcs[idx] = Rec("s" + "_".join(map(str, idx)), "ret", 1)
+    act = fluent.from_source(srcs, dims=dnames, coords={d: list(range(n)) for d, n in zip(dnames, dims)})
+    pobjs, user = [], {}
+    for pi, p in enumerate(case["payloads"]):
+        f = Rec("p%d" % pi, "fn", 1)
+        f.batchable = True
+        args = [dec(a) for a in p["args"]]
+        kwargs = {k: dec(v) for k, v in p["kwargs"]}
+        user["p%d" % pi] = (args, kwargs)
+        if p["wrap"] == "payload":
+            pobjs.append(fluent.Payload(f, list(args), dict(kwargs)))
+        elif p["wrap"] == "partial":
+            pobjs.append(functools.partial(f, *args, **kwargs))
+        else:
+            pobjs.append(f)
+    for st in case["steps"]:
+        if st["op"] == "map":
+            act = act.map(pobjs[st["p"]])
+        else:
+            act = act.reduce(pobjs[st["p"]], dim=st["dim"], batch_size=st["batch"])
+    graph = act.graph()
+    res["graph"] = graph
+    ser = serialise(graph)
+    parents_of = {}
+    for name, node in ser.items():
+        ins = node["inputs"]
+        k = len(ins)
+        refs = []
+        for i in range(k):
+            other = ins.get("input%d" % i)
+            if other is None:
+                raise ValueError("node %s has %d inputs but none named input%d" % (name, k, i))
+            refs.append((other, "0") if isinstance(other, str) else (other[0], other[1]))
+        key = node["payload"][0].key
+        args, kwargs = user.get(key, ([], {}))
+        declared = list(args) + ["input%d" % i for i in range(k) if "input%d" % i not in args]
+        ph = {"input%d" % i: refs[i] for i in range(k)}
+        spec[name] = {"args": [("up",) + ph[a] if isinstance(a, str) and a in ph else ("static", a) for a in declared],
+                      "kwargs": {kk: ("static", v) for kk, v in kwargs.items()}, "outs": ["0"], "beh": {"kind": "ret", "m": 1},
+                      "key": key, "wellformed": True, "parents": [r[0] for r in refs]}
+        parents_of[name] = sorted({r[0] for r in refs})
+        res["fluent_nodes"].append({"name": name, "args": [enc(a) for a in args], "n_inputs": k, "num_outputs": 1})
+    order = list(graphlib.TopologicalSorter({n: parents_of[n] for n in sorted(parents_of)}).static_order())
+    res["order"] = order
+    # the value each node denotes (a source: its token; otherwise the callable applied to the declared arguments)
+    for name in order:
+        sp = spec[name]
+        if sp["key"] in user:
+            vals = [spec[a[1]]["vals"][0] if a[0] == "up" else a[1] for a in sp["args"]]
+            sp["vals"] = [fn_tok(sp["key"], vals)]
+        else:
+            sp["vals"] = [tok(sp["key"], 0)]
+    # what the author of the program expects of each final node: every source of its coordinates, exactly once
+    finals = []
+    left = list(act.nodes.dims)
+    for idx in np.ndindex(*act.nodes.shape):
+        item = act.nodes.data[idx]
+        fixed = {d: int(act.nodes.coords[d].values[i]) for d, i in zip(left, idx)}
+        want = []
+        for sidx in np.ndindex(*dims):
+            if all(sidx[dnames.index(d)] == v for d, v in fixed.items()):
+                want.append("s" + "_".join(map(str, sidx)) + "#0")
+        finals.append([item.name if not hasattr(item, "parent") else item.parent.name, sorted(want)])
+    res["finals"] = finals
 
 
 def canon_job(job):
